@@ -46,8 +46,13 @@ var c10Comments = []string{
 	"b \"a$b\" \"c\" {}\n", "b \"100%\" {}\n", "b \"$${x}\" {}\n", "b \"%%{x}\" {}\n", "b \"\" {}\n", "b a \"b\" c {}\n", "b \"l\\\"q\" {}\n", "b \"\\u00e9\" {}\n",
 }
 
+// c10Abstract is the abstract tree of the current case's source when it was
+// generated (nil for micro cases or re-spaced text whose layout changed only).
+var c10Abstract *gen.Body
+
 func c10Source(c *core.Case) []byte {
 	r := c.Rng
+	c10Abstract = nil
 	switch r.Intn(6) {
 	case 0:
 		pos := gen.Pick(r, c10Positions)
@@ -61,6 +66,12 @@ func c10Source(c *core.Case) []byte {
 			// heredoc index keys only where a newline-insensitive context follows
 		}
 		c.Count("source:traversal-micro")
+		if gen.Chance(r, 0.5) {
+			if rs, ok := respace(r, []byte(src), gen.Chance(r, 0.2)); ok {
+				c.Count("source:traversal-micro+respaced")
+				return rs
+			}
+		}
 		return []byte(src)
 	case 1:
 		src := gen.Pick(r, c10Comments)
@@ -72,7 +83,53 @@ func c10Source(c *core.Case) []byte {
 	}
 	body, _ := exprConfig(r, 3, 2, 0.1)
 	c.Count("source:generated")
-	return []byte(gen.RenderNative(body, gen.RandomFileLayout(r)))
+	c10Abstract = body
+	src := []byte(gen.RenderNative(body, gen.RandomFileLayout(r)))
+	if gen.Chance(r, 0.4) {
+		// every pair of adjacent tokens with every kind of gap
+		if rs, ok := respace(r, src, gen.Chance(r, 0.2)); ok {
+			c.Count("source:generated+respaced")
+			return rs
+		}
+	}
+	return src
+}
+
+// c10FreeVars compares, attribute by attribute, the variable references the
+// hclwrite tree exposes with the free variables of the harness AST the source
+// was rendered from (an oracle that does not go through hclsyntax's own
+// variable analysis).
+func c10FreeVars(ab *gen.Body, wb *hclwrite.Body, path string) string {
+	for _, a := range ab.Attrs() {
+		wa := wb.GetAttribute(a.Name)
+		if wa == nil {
+			return fmt.Sprintf("%s: attribute %q is not exposed by the hclwrite tree", path, a.Name)
+		}
+		var got []string
+		for _, t := range wa.Expr().Variables() {
+			for _, tk := range t.BuildTokens(nil) {
+				if tk.Type == hclsyntax.TokenIdent {
+					got = append(got, string(tk.Bytes))
+					break
+				}
+			}
+		}
+		sort.Strings(got)
+		want := a.Expr.FreeVars()
+		if strings.Join(got, ",") != strings.Join(want, ",") {
+			return fmt.Sprintf("%s.%s: the expression refers to variables %v (free variables of the generated AST), the hclwrite tree exposes %v\nexpression: %s", path, a.Name, want, got, gen.RenderExpr(a.Expr, &gen.Layout{}))
+		}
+	}
+	ablks, wblks := ab.Blocks(), wb.Blocks()
+	if len(ablks) != len(wblks) {
+		return fmt.Sprintf("%s: %d blocks written, hclwrite tree exposes %d", path, len(ablks), len(wblks))
+	}
+	for i, blk := range ablks {
+		if msg := c10FreeVars(blk.Body, wblks[i].Body(), fmt.Sprintf("%s/%s[%d]", path, blk.Type, i)); msg != "" {
+			return msg
+		}
+	}
+	return ""
 }
 
 func c10Case(c *core.Case) {
@@ -107,6 +164,13 @@ func c10Case(c *core.Case) {
 	if msg, cls := c10Compare(c, src, sf.Body.(*hclsyntax.Body), wf.Body(), "root", &trav); msg != "" {
 		c.Violation("tree-view/"+cls, msg, nil)
 		return
+	}
+	if c10Abstract != nil {
+		if msg := c10FreeVars(c10Abstract, wf.Body(), "root"); msg != "" {
+			c.Violation("tree-view/variables-vs-generated-ast", msg, nil)
+			return
+		}
+		c.Count("variables-agree-with-generated-ast")
 	}
 	items := len(sf.Body.(*hclsyntax.Body).Attributes) + len(sf.Body.(*hclsyntax.Body).Blocks)
 	if items >= 2 && trav >= 1 {
